@@ -502,6 +502,7 @@ fn trace_file(prop: &str, inv: &str, batch: &str, seed: u64, run: u64, subject: 
         .set("verif_seed", J::U(seed))
         .set("run", J::U(run))
         .set("build_profile", J::s(profile))
+        .set("budget_scale", J::F(std::env::var("VERIF_SCALE").ok().and_then(|s| s.parse().ok()).unwrap_or(1.0)))
         .set("detail", J::s(detail))
         .set("trace", t.to_json())
 }
@@ -651,8 +652,9 @@ pub fn check(prop: &str, tier: &str, profile: &str, evidence_path: Option<String
         .set("violating_runs_total", J::U(violating_runs))
         .set("known_findings_matched", J::A(known_hits.iter().map(|(k, v)| J::obj().set("finding", J::s(k)).set("runs", J::U(*v))).collect()))
         .set("build_profile", J::s(profile))
+        .set("budget_scale", J::F(std::env::var("VERIF_SCALE").ok().and_then(|s| s.parse().ok()).unwrap_or(1.0)))
         .set("workers", J::U(nworkers as u64))
-        .set("components", J::s("real code: all of acpi_tables (built from /repo's working tree with --cfg rust_vmm_acpi_tables_verif); stubs: only the harness-side AmlSink implementations (ByteOnly, AllOverride, Aborting) and the Scripted Aml producer — the two seams the crate exposes"))
+        .set("components", J::s("real code: all of acpi_tables (built from /repo's working tree with --cfg rust_vmm_acpi_tables_verif); stubs: only the harness-side AmlSink implementations (ByteOnly, AllOverride, six partial-override sinks, Aborting) and the Scripted Aml producer — the two seams the crate exposes"))
         .set("exhaustive", J::Bool(false));
     for (k, denom) in coverage_fractions(prop) {
         cov.put(&format!("{}_reached_of_{}", k, denom), J::U(total.set_len(k)));
